@@ -3565,6 +3565,50 @@ func c11SnHistories(c *Ctx) {
 	}
 }
 
+// ---- deep family: one chain of `length` struct nodes over one parameter (far outside the path
+// cap; a tiny op list keeps the all-node observation after every op affordable)
+
+func c11DeepChain(c *Ctx, length int, full bool) {
+	r := c.Rng
+	kind := byte('P')
+	if r.Intn(2) == 0 {
+		kind = 'Q'
+	}
+	desc := []c11GNode{{kind: kind, v: 1 + r.Intn(99)}}
+	for i := 1; i <= length; i++ {
+		if i%2 == 0 {
+			desc = append(desc, c11GNode{kind: 'S', v: 1 + r.Intn(100000), ar: [][]int{{i - 1}}}) // T01
+		} else {
+			desc = append(desc, c11GNode{kind: 'S', v: 1 + r.Intn(100000), sc: []int{i - 1}}) // T10
+		}
+	}
+	cs, header := c11BuildGraph(c, false, desc)
+	rd := func(i int) c11Op { return c11Op{kind: "rd", a: i} }
+	ops := []c11Op{rd(length), {kind: "sp", a: 0, b: cs.freshVal()}, rd(length)}
+	if full {
+		ops = append(ops, rd(length/2), c11Op{kind: "sp", a: 0, b: cs.freshVal()}, rd(length))
+	}
+	var ans strings.Builder
+	var txt []string
+	for _, o := range ops {
+		ok, execs := cs.exec(o, &ans)
+		txt = append(txt, o.String())
+		if !ok {
+			c.Note("deep.op.PANIC")
+		}
+		if o.kind == "rd" && ok {
+			if want := cs.skipSpec(o.a); cs.lastV1 != want || cs.lastV2 != want {
+				c.Note("deep.FRESHNESS-FAILED")
+			}
+			if execs == length {
+				c.Note("deep.rd-executed-the-whole-chain")
+			}
+		}
+	}
+	c.Note(fmt.Sprintf("deep.chain-of-%d", length))
+	c11EmitOrdinary(c, header, txt, &ans)
+}
+
 const c11SkipRandomN = 300
 const c11SkipRandom2N = 200
 
@@ -3587,6 +3631,10 @@ func runC11(c *Ctx) {
 	for k := 0; k < nm; k++ {
 		c11MsgHistory(c)
 	}
+	// deep family: a chain of 1100 struct nodes, controls of 1001 and 999
+	c11DeepChain(c, 1100, true)
+	c11DeepChain(c, 1001, false)
+	c11DeepChain(c, 999, false)
 	// sn family: 12 fixed-shape histories
 	c11SnHistories(c)
 	// wide family: ~150 histories in the quick tier
